@@ -5,6 +5,7 @@ import (
 	"fmt"
 	"os"
 	"path/filepath"
+	"strconv"
 	"strings"
 	"time"
 
@@ -210,6 +211,7 @@ func init() {
 				c18PathShapes(ctx, dir)
 				c18ConfiguredExec(ctx, dir)
 				c18BusyThenChanged(ctx, dir)
+				c18OverlappingCalls(ctx, dir)
 				c18Config(ctx, dir)
 			}
 		}
@@ -674,5 +676,86 @@ func c18BusyThenChanged(ctx *Ctx, dir string) {
 		default:
 			ctx.Nontrivial("busy-then-changed:" + via)
 		}
+	}
+}
+
+// c18OverlappingCalls: the daemon calls one configured tool from several goroutines (control loop, RPM monitor,
+// Prometheus scrape). While one slow invocation is running a second call of the same executable arrives, and then the
+// file stops being safe. Whatever fan2go does about overlapping calls, no invocation may begin after that moment: the
+// test belongs to the execution, not to the call's arrival.
+func c18OverlappingCalls(ctx *Ctx, dir string) {
+	marker := filepath.Join(dir, "marker-overlap")
+	startsOf := func() []int64 {
+		var ts []int64
+		for _, l := range readLines(marker) {
+			f := strings.Fields(l)
+			if len(f) == 2 && f[0] == "start" {
+				n, _ := strconv.ParseInt(f[1], 10, 64)
+				ts = append(ts, n)
+			}
+		}
+		return ts
+	}
+	waitStarts := func(n int, d time.Duration) bool {
+		for t0 := time.Now(); time.Since(t0) < d; time.Sleep(5 * time.Millisecond) {
+			if len(startsOf()) >= n {
+				return true
+			}
+		}
+		return len(startsOf()) >= n
+	}
+	changes := []struct {
+		name string
+		do   func(p string)
+	}{
+		{"chmod-o+w", func(p string) { _ = os.Chmod(p, 0o757) }},
+		{"chown-1000", func(p string) { _ = os.Chown(p, 1000, 0) }},
+		{"chgrp-1000+g+w", func(p string) { _ = os.Chown(p, 0, 1000); _ = os.Chmod(p, 0o775) }},
+	}
+	for i, pair := range [][2]string{{"CmdFan.GetPwm", "CmdFan.GetRpm"}, {"SafeCmdExecution", "SafeCmdExecution"}, {"CmdSensor", "CmdSensor"}} {
+		ch := changes[i%len(changes)]
+		p := filepath.Join(dir, fmt.Sprintf("overlap-%d.sh", i))
+		_ = os.Remove(p)
+		_ = os.Remove(marker)
+		_ = os.WriteFile(p, []byte("#!/bin/sh\necho start $(date +%s%N) >> "+marker+"\nsleep 1.2\necho 4242\n"), 0755)
+		_ = os.Chown(p, 0, 0)
+		_ = os.Chmod(p, 0o755)
+		type res struct {
+			out  string
+			err  error
+			pmsg string
+		}
+		doneA, doneB := make(chan res, 1), make(chan res, 1)
+		go func() { o, e, pm := c18Invoke(pair[0], p); doneA <- res{o, e, pm} }()
+		if !waitStarts(1, 5*time.Second) {
+			ctx.Inconclusive("overlapping calls: the first invocation did not begin within 5 s")
+			<-doneA
+			return
+		}
+		go func() { o, e, pm := c18Invoke(pair[1], p); doneB <- res{o, e, pm} }()
+		// (an implementation running both at once has begun the second one by now; one that queues it has not)
+		secondBegan := waitStarts(2, 500*time.Millisecond)
+		ch.do(p)
+		changed := time.Now().UnixNano()
+		ra, rb := <-doneA, <-doneB
+		ctx.Eval(1)
+		desc := fmt.Sprintf("%s while a slow %s of the same root-owned 0755 executable is running; then %s; results: first out=%q err=%v, second out=%q err=%v; second had begun before the change: %v", pair[1], pair[0], ch.name, ra.out, ra.err, rb.out, rb.err, secondBegan)
+		if ra.pmsg != "" || rb.pmsg != "" {
+			ctx.Violation("overlapping-calls:panic:"+pair[1], desc+" "+firstLine(ra.pmsg+rb.pmsg), desc)
+			continue
+		}
+		late := 0
+		for _, t := range startsOf() {
+			// (well after the change, not within the few milliseconds between an exec and the script's first line)
+			if t > changed+int64(300*time.Millisecond) {
+				late++
+			}
+		}
+		if late > 0 {
+			ctx.Violation("overlapping-calls:executed-although-not-permitted-any-more:"+pair[1]+":"+ch.name, fmt.Sprintf("%d invocation(s) began more than 300 ms after the file had stopped being safe: %s", late, desc), desc)
+			continue
+		}
+		ctx.Count("overlapping_calls_of_one_executable", 1)
+		ctx.Nontrivial("overlapping-calls:" + pair[1] + ":" + ch.name)
 	}
 }
